@@ -133,31 +133,46 @@ Definition add_flow (fwd : bool) (dl : Z) (a : arc) : arc :=
 Definition push (arcs : list arc) (path : list (nat * bool)) (dl : Z) : list arc :=
   fold_left (fun (ar : list arc) (st : nat * bool) => upd ar (fst st) (add_flow (snd st) dl)) path arcs.
 
-Fixpoint ssp (fuel : nat) (e : list Z) (arcs : list arc) : option (list arc) :=
+(* one augmentation: Done = no positive supply left, More = continue, Fail = a sanity test of the
+   step failed (never on the residual graphs that arise) *)
+Inductive step_res := Done (arcs : list arc) | More (e : list Z) (arcs : list arc) | Fail.
+
+Definition ssp_step (e : list Z) (arcs : list arc) : step_res :=
   let '(maxSupply, k) := pick_supply e O 0 O in
-  if maxSupply =? 0 then Some arcs else
-  match fuel with
-  | O => None
-  | S f =>
-      let nv := length e in
-      let d0 := setnth (repeat None nv) k (Some 0) in
-      let '(d, p) := bellman nv arcs d0 (repeat None nv) in
-      match pick_deficit e d O None with
-      | None => None
-      | Some (_, l) =>
-          match trace (S nv) arcs p k l [] with
-          | None => None
-          | Some path =>
-              let dl := path_delta arcs path maxSupply in
-              let arcs' := push arcs path dl in
-              (* sanity of the step (never fails on the residual graphs that arise): positive
-                 amount, end points inside the graph, no arc driven below zero *)
-              if (0 <? dl) && (k <? nv)%nat && (l <? nv)%nat && forallb (fun a => 0 <=? net a) arcs'
-              then ssp f (upd (upd e k (fun x => x - dl)) l (fun x => x + dl)) arcs'
-              else None
-          end
+  if maxSupply =? 0 then Done arcs else
+  let nv := length e in
+  let d0 := setnth (repeat None nv) k (Some 0) in
+  let '(d, p) := bellman nv arcs d0 (repeat None nv) in
+  match pick_deficit e d O None with
+  | None => Fail
+  | Some (_, l) =>
+      match trace (S nv) arcs p k l [] with
+      | None => Fail
+      | Some path =>
+          let dl := path_delta arcs path maxSupply in
+          let arcs' := push arcs path dl in
+          (* positive amount, end points inside the graph, no arc driven below zero *)
+          if (0 <? dl) && (k <? nv)%nat && (l <? nv)%nat && forallb (fun a => 0 <=? net a) arcs'
+          then More (upd (upd e k (fun x => x - dl)) l (fun x => x + dl)) arcs'
+          else Fail
       end
   end.
+
+(* fuel in binary: level k allows 2^k augmentations, so the bound does not depend on the size of
+   the masses *)
+Fixpoint ssp_iter (k : nat) (e : list Z) (arcs : list arc) : step_res :=
+  match k with
+  | O => ssp_step e arcs
+  | S k' => match ssp_iter k' e arcs with
+            | More e' arcs' => ssp_iter k' e' arcs'
+            | r => r
+            end
+  end.
+
+Definition ssp_levels : nat := 48.
+Definition ssp_at (k : nat) (e : list Z) (arcs : list arc) : option (list arc) :=
+  match ssp_iter k e arcs with Done a => Some a | _ => None end.
+Definition ssp (e : list Z) (arcs : list arc) : option (list arc) := ssp_at ssp_levels e arcs.
 
 Definition mk_arcs (cc : list (list (nat * Z))) : list arc :=
   concat (map (fun fr => map (fun tc => {| a_from := fst fr; a_to := fst tc; a_cost := snd tc; a_fp := 0; a_fm := 0 |})
@@ -175,10 +190,9 @@ Definition x_of (nv : nat) (arcs : list arc) : list (list (nat * Z * Z)) :=
 Definition x_dist (x : list (list (nat * Z * Z))) : Z :=
   zsum (map (fun l => zsum (map (fun en => snd (fst en) * snd en) l)) x).
 
-Definition supply_fuel (e : list Z) : nat := S (Z.to_nat (zsum (map (Z.max 0) e))).
 
 Definition min_cost_flow (bb : list Z) (cc : list (list (nat * Z))) : option (Z * list (list (nat * Z * Z))) :=
-  match ssp (supply_fuel bb) bb (mk_arcs cc) with
+  match ssp bb (mk_arcs cc) with
   | None => None
   | Some arcs => let x := x_of (length bb) arcs in Some (x_dist x, x)
   end.
